@@ -53,7 +53,7 @@ vars == <<L, kw, hashint, hint, W, pc, j, lengths, bufw, buf, wcount, pos, taken
 NF == Len(L)
 
 (* atom_indices values in scope: selection a > 0 is AtomSels[a]; 0 means no keyword (all atoms) *)
-AtomSels == << <<0, 2>>, <<1>>, <<1, 3>> >>
+AtomSels == << <<0, 2>>, <<1>>, <<3, 1>> >>      \* (the third one NOT in increasing order: md.load keeps the listed order)
 Width(a) == IF a = 0 THEN NAtoms ELSE Len(AtomSels[a])
 
 Empty == <<0, 0, 0, 0>>
